@@ -172,6 +172,7 @@ func (w *World) applyImport(op Op) *Violation {
 	root, conts := m.Roots[op.Ver], m.Conts[op.Ver]
 	written, normal := m.WrittenV[op.Ver], m.NormalV[op.Ver]
 	old := *w
+	w.held, w.heldC = nil, nil // they belong to the old store
 	w.Base, w.DB, w.VS, w.Tree, w.tmp = nw.Base, nw.DB, nw.VS, nw.Tree, nw.tmp
 	old.Close()
 	w.exps = map[int64][]*iavl.Exporter{}
